@@ -68,7 +68,11 @@ Inductive c11_case :=
 | CFib (mul withfiber : bool) (sa : option Z) (a : zfib) (sb : option Z) (b : zfib) (s : Z)
 (* round 2: the same on fiber objects that carry an explicit active range, optionally after a first
    in-place step  a += c (false) / a *= c (true)  — a two-step history on the same object a *)
-| CFibH (pre : option (bool * afib)) (mul withfiber : bool) (a b : afib) (s : Z).
+| CFibH (pre : option (bool * afib)) (mul withfiber : bool) (a b : afib) (s : Z)
+(* round 3: a chain of value-returning and in-place steps on an accumulator that starts as a0
+   (results of + and * become operands), then the fiber observation with the accumulator as the
+   left operand *)
+| CFibC (a0 : afib) (steps : list fstep) (mul withfiber : bool) (b : afib) (s : Z).
 
 (* ------------------------------------------------------------------ observation encoding *)
 Definition V_val (v : pyval) : V :=
@@ -119,6 +123,13 @@ Definition c11_model (c : c11_case) : V :=
     let a1 := hist_step pre a in
     VL [V_fib (af_elems a1); Vp VZ VZ (get_active a1);
         fib_model mul withfiber (af_shape a1) (af_elems a1) (af_elems b) s]
+  | CFibC a0 steps mul withfiber b s =>
+    (* [accumulator after every step; getActive() and declared shape of the final one; second-step
+       observation] *)
+    let an := chain a0 steps in
+    VL [Vl (fun f => V_fib (af_elems f)) (chain_trace a0 steps);
+        Vp VZ VZ (get_active an); Vo VZ (af_shape an);
+        fib_model mul withfiber (af_shape an) (af_elems an) (af_elems b) s]
   end.
 
 (* ------------------------------------------------------------------ the property as a decision
@@ -196,6 +207,8 @@ Definition c11_wf (c : c11_case) : bool :=
        | _, _ => wf_operands o x (match kr with KSame => x | _ => y end)
        end
   | CFib mul withfiber sa a sb b s => wf_fib sa a && wf_fib sb b
+  | CFibC a0 steps mul withfiber b s =>
+    wf_afib a0 && wf_afib b && forallb (step_wf (af_shape a0)) steps
   | CFibH pre mul withfiber a b s =>
     wf_afib a && wf_afib b
     && match pre with
@@ -232,12 +245,65 @@ Definition hist_spec (pre : option (bool * afib)) (mul withfiber : bool) (a b : 
   | _ => false
   end.
 
+(* ---- chains: every step is judged on the OBSERVED accumulator before and after it, by the clause
+   of the property for that single operation; [sh] is the accumulator's declared shape (that of
+   a0: value-returning results carry the left operand's declared shape, in-place forms keep the
+   object).  In-place steps must leave the content their value-returning form would have (same
+   [step_val]); for value-returning steps the stored coordinates are prescribed too. *)
+Definition step_val (sh : option Z) (acc : zfib) (st : fstep) (x : Z) : Z :=
+  match st with
+  | SAddF c | SIAddF c => getz x acc + getz x (af_elems c)
+  | SMulF c | SIMulF c => getz x acc * getz x (af_elems c)
+  | SAddS k | SIAddS k => if in_shape sh acc x then k + getz x acc else 0
+  | SMulS k | SIMulS k => k * getz x acc
+  end.
+
+Definition step_universe (sh : option Z) (acc : zfib) (st : fstep) : Z :=
+  match st with
+  | SAddF c | SMulF c | SIAddF c | SIMulF c => universe sh acc (af_shape c) (af_elems c)
+  | _ => universe sh acc None []
+  end.
+
+Definition step_ok (sh : option Z) (st : fstep) (acc acc' : zfib) : bool :=
+  let N := step_universe sh acc st in
+  wf_fib sh acc'
+  && match st with
+     | SAddF c => pointwise N acc' (fun x => stored_nz x acc || stored_nz x (af_elems c)) (step_val sh acc st)
+     | SMulF c => pointwise N acc' (fun x => stored_nz x acc && stored_nz x (af_elems c)) (step_val sh acc st)
+     | SAddS k => pointwise N acc' (in_shape sh acc) (step_val sh acc st)
+     | SMulS k => pointwise N acc' (fun x => stored_nz x acc) (step_val sh acc st)
+     | _ => fib_ok N acc' && forallb (fun x => Z.eqb (getz x acc') (step_val sh acc st x)) (zrange N)
+     end.
+
+Fixpoint steps_ok (sh : option Z) (acc : zfib) (steps : list fstep) (obs : list V) : option zfib :=
+  match steps, obs with
+  | [], [] => Some acc
+  | st :: steps', v :: obs' =>
+    match unV_fib v with
+    | Some acc' => if step_ok sh st acc acc' then steps_ok sh acc' steps' obs' else None
+    | None => None
+    end
+  | _, _ => None
+  end.
+
+Definition chain_spec (a0 : afib) (steps : list fstep) (mul withfiber : bool) (b : afib) (s : Z)
+           (o : V) : bool :=
+  match o with
+  | VL [VL accs; _; _; o2] =>
+    match steps_ok (af_shape a0) (af_elems a0) steps accs with
+    | Some an => fib_spec mul withfiber (af_shape a0) an (af_shape b) (af_elems b) s o2
+    | None => false
+    end
+  | _ => false
+  end.
+
 Definition c11_holds (c : c11_case) (o : V) : bool :=
   if c11_wf c then
     match c with
     | COp i o' kl kr x y => V_eqb (V_aobs (spec_op pyval bop_py i o' kl kr x y)) o
     | CFib mul withfiber sa a sb b s => fib_spec mul withfiber sa a sb b s o
     | CFibH pre mul withfiber a b s => hist_spec pre mul withfiber a b s o
+    | CFibC a0 steps mul withfiber b s => chain_spec a0 steps mul withfiber b s o
     end
   else true.
 
